@@ -442,6 +442,8 @@ def install(tr, gw):
     for name in ("connect", "close", "send", "_receive_loop", "_process_queue"):
         old = _wrap_top(tr, base, name)
         undo.append((base, name, old))
+        if name == "close":
+            tr.orig_close = old       # the unwrapped close(): what a callback calls when it closes the client from inside
     old = _wrap_inner(tr, base, "_update_state")
     undo.append((base, "_update_state", old))
     for cls in (io.EByteNmea2000Gateway, io.TextNmea2000Gateway, io.WaveShareNmea2000Gateway):
@@ -802,11 +804,36 @@ async def _session(spec, tr, gw, obs, loop):
     rcb_mode = spec.get("rcb", "ret")        # ret | raise | slow
     obs.update(status=status, rcb=rcbs, beats=beats)
 
+    # oracle-only modes (not labelled, not fed to the Coq acceptor: the LTS has no close() inside a callback):
+    #   rcb_close_at = n : the receive callback calls `await client.close()` on its n-th invocation (queue-consumer task)
+    #   scb_close_on = v : the status callback calls `await client.close()` the first time it is told state v
+    #                      (v = 0: on the task whose fault handler reports DISCONNECTED - the receive loop or a send())
+    rcb_close_at = spec.get("rcb_close_at")
+    scb_close_on = spec.get("scb_close_on")
+    inner_closed = [False]
+
+    async def close_from_callback(where):
+        inner_closed[0] = True
+        close_info["called"] = loop.time()
+        close_info["from"] = where
+        tr.ev("inner-close", where)
+        try:
+            await tr.orig_close(tr.client)
+        except asyncio.CancelledError:
+            # close() cancelled the very task it runs on: it unwinds here (also in the unchanged library)
+            close_info["cancelled"] = loop.time()
+            close_info["rcb_at_return"] = len(rcbs)
+            raise
+        close_info["returned"] = loop.time()
+        close_info["rcb_at_return"] = len(rcbs)
+
     async def on_status(s):
         status.append([loop.time(), s.value, bool(tr.client.lock.locked())])
         if s.value == 2 and "at_closed" not in obs:
             obs["at_closed"] = {"attempts": len(gw.attempt_times), "writers": len(gw.writers)}
         tr.ev("scb", s.value, "enter")
+        if scb_close_on is not None and s.value == scb_close_on and not inner_closed[0]:
+            await close_from_callback("status callback told %d" % s.value)
         if cb_mode in ("slow", "slowraise"):
             await _sleep(cb_delay)
         if cb_mode in ("raise", "slowraise"):
@@ -817,6 +844,8 @@ async def _session(spec, tr, gw, obs, loop):
     async def on_message(m):
         rcbs.append([loop.time(), getattr(m, "PGN", None)])
         tr.ev("rcb", "enter")
+        if rcb_close_at is not None and len(rcbs) == int(rcb_close_at) and not inner_closed[0]:
+            await close_from_callback("receive callback #%d" % len(rcbs))
         if rcb_mode == "slow":
             await _sleep(cb_delay)
         if rcb_mode == "raise":
@@ -941,6 +970,8 @@ async def _session(spec, tr, gw, obs, loop):
     obs["faults"] = [[b["vt"], b["what"]] for b in tr.blocks if b["kind"] == "env" and b["what"] in ("eof", "reset")]
     obs["wfaults"] = list(gw.wfaults)
     try:
+        if rcb_close_at is not None or scb_close_on is not None:
+            raise Unlabelled("oracle-only session: close() called from inside a callback is not a schedule of the LTS")
         labels = labelise(tr.blocks)
         obs["labels"] = [[a, s] for a, s in labels]
         obs["unlabelled"] = None
